@@ -448,6 +448,11 @@ class Gen:
             v = ceval_exact(k)
             if v is not None and v <= 0:
                 k = ("CNum", r.choice(NUMS[1:]))
+        if self.bodies and r.random() < 0.08:
+            # a coefficient that is exactly zero on a REPEATED absolute body (0|x| + |x|, (1 - 1)|x| + 2|x|): zero is a
+            # coefficient like any other when equal absolute terms are merged
+            k = r.choice([("CNum", F(0)), ("CSub", ("CNum", F(1)), ("CNum", F(1))), ("CMul", ("CNum", F(0)), ("CNum", F(3)))])
+            return ("AAbs", "+", k, r.choice(self.bodies))
         return ("AAbs", self.sign(abs_minus), k, self.body(max(depth - 1, 0)))
 
     def pitem(self, depth, abs_minus):
